@@ -590,6 +590,209 @@ theorem twoAxes_extraction_args (t1 t2 t3 : Trig K) (h1 : TrigValid t1) (h3 : Tr
     try ((repeat' constructor) <;> first | ring1 | linear_combination (t2.s * t2.s) * h1 + (t2.s * t2.s) * h3)
 end Field
 
+/-! ## The extraction functions themselves (what the driver executes), every branch -/
+section ExtractField
+variable {K : Type} [Field K]
+/-- entries used by the *singular* (gimbal-lock) branches of the three-distinct-axes extraction: the pairs handed to
+`atan2` are `(1 ± sin θ₂)·(sin, cos)(θ₁ ± θ₃)` (`θ₃` enters negated for reverse-cyclical sequences) -/
+theorem threeAxes_singular_args (t1 t2 t3 : Trig K) (i j : Axis) (hij : i ≠ j) :
+    let k := i.third j
+    let R := fromThreeAngles false t1 i t2 j t3 k
+    let pm : K := if i.isReverseCyclical j then -1 else 1
+    let mp : K := if i.isReverseCyclical j then 1 else -1
+    let u3 : Trig K := if i.isReverseCyclical j then t3.neg else t3
+    R.get j i + pm * R.get k j = (1 + t2.s) * (Trig.add t1 u3).s ∧
+    R.get j j + mp * R.get k i = (1 + t2.s) * (Trig.add t1 u3).c ∧
+    pm * (R.get k j + mp * R.get j i) = (1 - t2.s) * (Trig.add t1 u3.neg).s ∧
+    R.get j j + pm * R.get k i = (1 - t2.s) * (Trig.add t1 u3.neg).c := by
+  cases i <;> cases j <;> first | exact absurd rfl hij | skip
+  all_goals
+    simp [fromThreeAngles, threeAngleThreeAxesBodyFwd, Mat33.place, Mat33.ofFn, Mat33.get, Axis.pos, Axis.third,
+      Axis.next, Axis.isReverseCyclical, Axis.prev, Trig.neg, Trig.add]
+    try ((repeat' constructor) <;> ring1)
+
+theorem twoAxes_singular_args (t1 t2 t3 : Trig K) (i j : Axis) (hij : i ≠ j) :
+    let k := i.third j
+    let R := fromThreeAngles false t1 i t2 j t3 i
+    let pm : K := if i.isReverseCyclical j then -1 else 1
+    let mp : K := if i.isReverseCyclical j then 1 else -1
+    pm * R.get k j + mp * R.get j k = (1 + t2.c) * (Trig.add t1 t3).s ∧
+    R.get j j + R.get k k = (1 + t2.c) * (Trig.add t1 t3).c ∧
+    pm * R.get k j + pm * R.get j k = (1 - t2.c) * (Trig.add t1 t3.neg).s ∧
+    R.get j j - R.get k k = (1 - t2.c) * (Trig.add t1 t3.neg).c := by
+  cases i <;> cases j <;> first | exact absurd rfl hij | skip
+  all_goals
+    simp [fromThreeAngles, threeAngleTwoAxesBodyFwd, Mat33.place, Mat33.ofFn, Mat33.get, Axis.pos, Axis.third,
+      Axis.next, Axis.isReverseCyclical, Axis.prev, Trig.neg, Trig.add]
+    try ((repeat' constructor) <;> ring1)
+
+/-- entries of a two-angle body-fixed rotation in terms of the (possibly negated) trig pairs the private setter saw -/
+theorem twoAngle_entries (t1 t2 : Trig K) (i j : Axis) (hij : i ≠ j) :
+    let k := i.third j
+    let R := fromTwoAngles false t1 i t2 j
+    let u1 : Trig K := if i.isReverseCyclical j then t1.neg else t1
+    let u2 : Trig K := if i.isReverseCyclical j then t2.neg else t2
+    R.get k j = u1.s ∧ R.get j i = u2.s * u1.s ∧ R.get j k = -u1.s * u2.c ∧ R.get j j = u1.c ∧
+    R.get k i = -u2.s * u1.c ∧ R.get k k = u1.c * u2.c ∧ R.get i k = u2.s ∧ R.get i i = u2.c := by
+  cases i <;> cases j <;> first | exact absurd rfl hij | skip
+  all_goals
+    simp [fromTwoAngles, twoAngleBodyFwd, Mat33.place, Mat33.ofFn, Mat33.get, Axis.pos, Axis.third,
+      Axis.next, Axis.isReverseCyclical, Axis.prev, Trig.neg]
+
+/-- **handedness of the angle–axis constructor**: about a coordinate axis it is the elementary rotation by the
+double angle (`cos θ = c²−s²`, `sin θ = 2sc` of the half-angle pair), not its inverse -/
+theorem fromAngleAboutUnitVector_axis [LinearOrder K] (h : Trig K) (hv : TrigValid h) (a : Axis) :
+    fromAngleAboutUnitVector h (Vec3.unit a) = aboutAxis ⟨h.c * h.c - h.s * h.s, 2 * h.s * h.c⟩ a := by
+  unfold TrigValid at hv
+  unfold fromAngleAboutUnitVector Quaternion.fromAngleAxis
+  by_cases hc : h.c < 0 <;> cases a <;>
+    simp only [hc, if_true, if_false, fromQuaternion, Vec3.unit, aboutAxis] <;> ext <;> simp only [] <;>
+    first | ring1 | linear_combination hv | linear_combination -hv
+end ExtractField
+
+section ExtractOrdered
+variable {K : Type} [Field K] [LinearOrder K] [IsStrictOrderedRing K]
+
+/-- **`convertThreeAxesBodyFixedRotationToThreeAngles` on the rotation built from `(θ₁,θ₂,θ₃)`**, all six orders of three
+distinct axes, all three branches of the executed extraction function:
+* regular branch (`4·Eps < |cos θ₂|`): `atan2` is handed `cos θ₂·(sin θ₁, cos θ₁)`, `(sin θ₂, |cos θ₂|)`, `cos θ₂·(sin θ₃, cos θ₃)`;
+* gimbal lock with `sin θ₂ > 0`: `θ₁ ↦ atan2 of (1+sin θ₂)·(sin, cos)(θ₁ ± θ₃)`, `θ₃ ↦ 0`;
+* gimbal lock with `sin θ₂ ≤ 0`: `θ₁ ↦ atan2 of (1−sin θ₂)·(sin, cos)(θ₁ ∓ θ₃)`, `θ₃ ↦ 0`
+(upper sign for forward-cyclical, lower for reverse-cyclical sequences). -/
+theorem toThreeAnglesThreeAxesBody_fromThreeAngles (sqrt : K → K) (atan2 : K → K → K) (eps4 : K)
+    (t1 t2 t3 : Trig K) (h1 : TrigValid t1) (h3 : TrigValid t3) (i j : Axis) (hij : i ≠ j) :
+    toThreeAnglesThreeAxesBody sqrt atan2 eps4 (fromThreeAngles false t1 i t2 j t3 (i.third j)) i j (i.third j) =
+      (let u3 : Trig K := if i.isReverseCyclical j then t3.neg else t3
+       let th2 := atan2 t2.s (sqrt (t2.c * t2.c))
+       if eps4 < sqrt (t2.c * t2.c) then
+         (atan2 (t1.s * t2.c) (t1.c * t2.c), th2, atan2 (t3.s * t2.c) (t3.c * t2.c))
+       else if 0 < t2.s then
+         (atan2 ((1 + t2.s) * (Trig.add t1 u3).s) ((1 + t2.s) * (Trig.add t1 u3).c), th2, 0)
+       else
+         (atan2 ((1 - t2.s) * (Trig.add t1 u3.neg).s) ((1 - t2.s) * (Trig.add t1 u3.neg).c), th2, 0)) := by
+  have a := threeAxes_extraction_args t1 t2 t3 h1 h3 i j hij
+  have b := threeAxes_singular_args t1 t2 t3 i j hij
+  simp only [] at a b
+  obtain ⟨a1, a2, a3, a4, a5, a6⟩ := a
+  obtain ⟨b1, b2, b3, b4⟩ := b
+  have hr : (Rotation.sq ((fromThreeAngles false t1 i t2 j t3 (i.third j)).get i i)
+      + Rotation.sq ((fromThreeAngles false t1 i t2 j t3 (i.third j)).get i j)
+      + Rotation.sq ((fromThreeAngles false t1 i t2 j t3 (i.third j)).get j (i.third j))
+      + Rotation.sq ((fromThreeAngles false t1 i t2 j t3 (i.third j)).get (i.third j) (i.third j))) / 2 = t2.c * t2.c := by
+    rw [a6]; field_simp
+  unfold toThreeAnglesThreeAxesBody
+  simp only [hr]
+  simp only [a1, a2, a3, a4, a5, b1, b2, b3, b4]
+
+/-- **`convertTwoAxesBodyFixedRotationToThreeAngles` on the rotation built from `(θ₁,θ₂,θ₃)`** (sequence `i j i`, all six),
+all three branches of the executed function -/
+theorem toThreeAnglesTwoAxesBody_fromThreeAngles (sqrt : K → K) (atan2 : K → K → K) (eps4 : K)
+    (t1 t2 t3 : Trig K) (h1 : TrigValid t1) (h3 : TrigValid t3) (i j : Axis) (hij : i ≠ j) :
+    toThreeAnglesTwoAxesBody sqrt atan2 eps4 (fromThreeAngles false t1 i t2 j t3 i) i j =
+      (let th2 := atan2 (sqrt (t2.s * t2.s)) t2.c
+       if eps4 < sqrt (t2.s * t2.s) then
+         (atan2 (t1.s * t2.s) (t1.c * t2.s), th2, atan2 (t3.s * t2.s) (t3.c * t2.s))
+       else if 0 < t2.c then
+         (atan2 ((1 + t2.c) * (Trig.add t1 t3).s) ((1 + t2.c) * (Trig.add t1 t3).c), th2, 0)
+       else
+         (atan2 ((1 - t2.c) * (Trig.add t1 t3.neg).s) ((1 - t2.c) * (Trig.add t1 t3.neg).c), th2, 0)) := by
+  have a := twoAxes_extraction_args t1 t2 t3 h1 h3 i j hij
+  have b := twoAxes_singular_args t1 t2 t3 i j hij
+  simp only [] at a b
+  obtain ⟨a1, a2, a3, a4, a5, a6⟩ := a
+  obtain ⟨b1, b2, b3, b4⟩ := b
+  have hr : (Rotation.sq ((fromThreeAngles false t1 i t2 j t3 i).get i j)
+      + Rotation.sq ((fromThreeAngles false t1 i t2 j t3 i).get i (i.third j))
+      + Rotation.sq ((fromThreeAngles false t1 i t2 j t3 i).get j i)
+      + Rotation.sq ((fromThreeAngles false t1 i t2 j t3 i).get (i.third j) i)) / 2 = t2.s * t2.s := by
+    rw [a6]; field_simp
+  unfold toThreeAnglesTwoAxesBody
+  simp only [hr]
+  simp only [a1, a2, a3, a4, a5, b1, b2, b3, b4]
+
+/-- `sign(x)·√(x²) = x` -/
+theorem signOf_mul_sqrt (sqrt : K → K) (hs : SqrtSpec sqrt) (x : K) : signOf x * sqrt (x * x) = x := by
+  have hnn := mul_self_nonneg x
+  have h1 := hs.sq _ hnn
+  have h2 := hs.nonneg _ hnn
+  have hcase : sqrt (x * x) = x ∨ sqrt (x * x) = -x := by
+    have : (sqrt (x * x) - x) * (sqrt (x * x) + x) = 0 := by linear_combination h1
+    rcases mul_eq_zero.mp this with e | e
+    · left; linarith
+    · right; linarith
+  unfold signOf
+  split_ifs with hp
+  · rcases hcase with e | e
+    · rw [e]; ring
+    · rw [e] at h2; linarith
+  · rw [not_lt] at hp
+    rcases hcase with e | e
+    · rw [e] at h2; have : x = 0 := le_antisymm hp h2; rw [e, this]; ring
+    · rw [e]; ring
+
+/-- **`convertTwoAxesBodyFixedRotationToTwoAngles`** (with its sign-and-square-root averaging) hands `atan2` exactly the
+trig pairs the rotation was built from, and therefore returns `atan2 (sin θ) (cos θ)` of each angle; for
+reverse-cyclical axis pairs both the construction and the result are negated -/
+theorem toTwoAnglesBody_fromTwoAngles (sqrt : K → K) (hs : SqrtSpec sqrt) (atan2 : K → K → K)
+    (t1 t2 : Trig K) (h1 : TrigValid t1) (h2 : TrigValid t2) (i j : Axis) (hij : i ≠ j) :
+    toTwoAnglesBody sqrt atan2 (fromTwoAngles false t1 i t2 j) i j =
+      if i.isReverseCyclical j then (-atan2 (-t1.s) t1.c, -atan2 (-t2.s) t2.c)
+      else (atan2 t1.s t1.c, atan2 t2.s t2.c) := by
+  have e := twoAngle_entries t1 t2 i j hij
+  simp only [] at e
+  obtain ⟨e1, e2, e3, e4, e5, e6, e7, e8⟩ := e
+  have key : ∀ u1 u2 : Trig K, TrigValid u1 → TrigValid u2 →
+      (u1.s + signOf u1.s * sqrt (Rotation.sq (u2.s * u1.s) + Rotation.sq (-u1.s * u2.c))) / 2 = u1.s ∧
+      (u1.c + signOf u1.c * sqrt (Rotation.sq (-u2.s * u1.c) + Rotation.sq (u1.c * u2.c))) / 2 = u1.c ∧
+      (u2.s + signOf u2.s * sqrt (Rotation.sq (u2.s * u1.s) + Rotation.sq (-u2.s * u1.c))) / 2 = u2.s ∧
+      (u2.c + signOf u2.c * sqrt (Rotation.sq (-u1.s * u2.c) + Rotation.sq (u1.c * u2.c))) / 2 = u2.c := by
+    intro u1 u2 v1 v2
+    unfold TrigValid at v1 v2
+    have q1 : Rotation.sq (u2.s * u1.s) + Rotation.sq (-u1.s * u2.c) = u1.s * u1.s := by
+      unfold Rotation.sq; linear_combination (u1.s * u1.s) * v2
+    have q2 : Rotation.sq (-u2.s * u1.c) + Rotation.sq (u1.c * u2.c) = u1.c * u1.c := by
+      unfold Rotation.sq; linear_combination (u1.c * u1.c) * v2
+    have q3 : Rotation.sq (u2.s * u1.s) + Rotation.sq (-u2.s * u1.c) = u2.s * u2.s := by
+      unfold Rotation.sq; linear_combination (u2.s * u2.s) * v1
+    have q4 : Rotation.sq (-u1.s * u2.c) + Rotation.sq (u1.c * u2.c) = u2.c * u2.c := by
+      unfold Rotation.sq; linear_combination (u2.c * u2.c) * v1
+    rw [q1, q2, q3, q4, signOf_mul_sqrt sqrt hs, signOf_mul_sqrt sqrt hs, signOf_mul_sqrt sqrt hs,
+      signOf_mul_sqrt sqrt hs]
+    refine ⟨?_, ?_, ?_, ?_⟩ <;> ring
+  unfold toTwoAnglesBody twoAnglesBodyArgs
+  simp only [e1, e2, e3, e4, e5, e6, e7, e8]
+  cases hrev : i.isReverseCyclical j
+  · obtain ⟨k1, k2, k3, k4⟩ := key t1 t2 h1 h2
+    simp only [Bool.false_eq_true, if_false, k1, k2, k3, k4]
+  · obtain ⟨k1, k2, k3, k4⟩ := key t1.neg t2.neg (trig_neg_valid t1 h1) (trig_neg_valid t2 h2)
+    simp only [if_true, k1, k2, k3, k4]
+    simp only [Trig.neg]
+
+/-- **`convertQuaternionToAngleAxis`** on the quaternion `(c, s·v)` of a unit vector `v`: the executed function returns
+the (range-adjusted) angle `2·atan2(|s|, c)` and the axis `(s/|s|)·v`, or the documented `[0 1 0 0]` when `|s| < Eps²` -/
+theorem quat_toAngleAxis (sqrt : K → K) (atan2 : K → K → K) (pi epsSq : K) (c s : K) (v : Vec3 K) (hv : v.dot v = 1) :
+    Quaternion.toAngleAxis sqrt atan2 pi epsSq ⟨c, s * v.x, s * v.y, s * v.z⟩ =
+      if sqrt (s * s) < epsSq then ⟨0, 1, 0, 0⟩ else
+      ⟨(if pi < 2 * atan2 (sqrt (s * s)) c then 2 * atan2 (sqrt (s * s)) c - 2 * pi else 2 * atan2 (sqrt (s * s)) c),
+       s * v.x / sqrt (s * s), s * v.y / sqrt (s * s), s * v.z / sqrt (s * s)⟩ := by
+  simp only [Vec3.dot] at hv
+  have e : s * v.x * (s * v.x) + s * v.y * (s * v.y) + s * v.z * (s * v.z) = s * s := by
+    linear_combination (s * s) * hv
+  unfold Quaternion.toAngleAxis
+  simp only [e]
+
+/-- `convertRotationToAngleAxis` of a rotation built from a unit quaternion `q` is `convertQuaternionToAngleAxis` of `q`
+or of `-q` (whichever is canonical) -/
+theorem toAngleAxis_fromQuaternion (sqrt : K → K) (hs : SqrtSpec sqrt) (atan2 : K → K → K) (pi epsSq : K)
+    (q : Quaternion K) (h : q.normSq = 1) :
+    Rotation.toAngleAxis sqrt atan2 pi epsSq (fromQuaternion q) = Quaternion.toAngleAxis sqrt atan2 pi epsSq q ∨
+    Rotation.toAngleAxis sqrt atan2 pi epsSq (fromQuaternion q) = Quaternion.toAngleAxis sqrt atan2 pi epsSq q.neg := by
+  unfold Rotation.toAngleAxis
+  rcases (toQuaternion_fromQuaternion sqrt hs q h).1 with e | e
+  · left; rw [e]
+  · right; rw [e]
+end ExtractOrdered
+
 /-! ## Non-vacuity of the hypotheses used above -/
 
 /-- a valid trig pair, a unit quaternion and a unit vector exist (3-4-5 triangle; `SqrtSpec` is satisfiable on
